@@ -277,6 +277,17 @@ def length_of(t):
 _NARY = {'AND', 'OR', 'ADD', 'PT_ADD', 'MUL'}
 
 
+def _fold_numeric(name, pyf):
+    def f(*args):
+        if args and all(is_const(a) and isinstance(a[1], (int, float)) and not isinstance(a[1], bool) for a in args):
+            try:
+                return const(pyf(*[a[1] for a in args]))
+            except Exception:
+                pass
+        return ('op', name) + tuple(args)
+    return f
+
+
 def op(name, *args):
     f = _SMART.get(name)
     if f is not None:
@@ -1161,6 +1172,8 @@ _SMART = {
     'NOT': not_, 'AND': and_, 'OR': or_, 'IN': in_, 'IS': is_, 'LEN': len_, 'PT': pt, 'PT_ADD': pt_add,
     'SEC': sec, 'PARSE_PT': parse_pt, 'SK_ADD': sk_add, 'SK_ADD_INT': sk_add_int, 'LSHIFT': lshift,
     'RSHIFT': rshift, 'BITAND': bitand, 'BITOR': bitor, 'BITXOR': bitxor, 'BOOL': truth,
+    'MAX': _fold_numeric('MAX', max), 'MIN': _fold_numeric('MIN', min), 'ABS': _fold_numeric('ABS', abs),
+    'ROUND': _fold_numeric('ROUND', round), 'POW': _fold_numeric('POW', pow),
 }
 
 
